@@ -85,7 +85,7 @@ class Patch:
 
 
 FAULT_KINDS = ["raise_rt", "raise_key", "raise_noargs", "raise_intarg", "raise_stopiter", "cplx0", "npcplx0", "nan", "pinf", "ninf", "cplx", "vec", "list3", "tuple2", "none"]
-FAULT_KINDS_SPEC = ["notuple", "tuple3", "sd0", "sdneg", "sdnan", "sdinf"]
+FAULT_KINDS_SPEC = ["notuple", "tuple3", "sd0", "sdneg", "sdnan", "sdinf", "sdnone", "sdcplx0", "sdstr", "sdhuge", "sdvec"]
 
 
 class Run:
@@ -188,6 +188,8 @@ def make_target(run):
 
     def f(x):
         xx = np.array(x, dtype=float, copy=True).ravel()
+        if job.get("mutate_arg") and isinstance(x, np.ndarray) and x.flags.writeable:
+            x[...] = 1.0e9  # a target that scribbles over its argument must not corrupt the optimiser's own record of the point
         k = len(run.calls)
         key = xx.tobytes()
         sd = None
@@ -247,7 +249,8 @@ def make_target(run):
                 return val
             if kind == "tuple3":
                 return (val, sd, sd)
-            sdbad = {"sd0": 0.0, "sdneg": -1.0, "sdnan": np.nan, "sdinf": np.inf}
+            sdbad = {"sd0": 0.0, "sdneg": -1.0, "sdnan": np.nan, "sdinf": np.inf, "sdnone": None, "sdcplx0": complex(0.1, 0.0), "sdstr": "0.1",
+                     "sdhuge": 10 ** 400, "sdvec": np.array([0.1, 0.2])}
             return (val, sdbad[kind])
         return (val, sd) if mode == "spec" else val
 
@@ -625,6 +628,9 @@ def install_observers(run, patch):
     def init_gp(hyp_dict, optim_state, fl, ih, options, plb, pub):
         out = o_init(hyp_dict, optim_state, fl, ih, options, plb, pub)
         check_gp("init", out[0], fl)
+        k, hi = out[0].X.shape[0], max(int(options["n_train_min"]), int(options["n_train_max"]))
+        if k > hi:
+            run.v("C15", "initial fit: training set larger than the configured maximum", "train-size/init", (k, hi))
         return out
 
     patch.set(bb, "init_and_train_gp", init_gp)
@@ -758,6 +764,8 @@ def execute(job):
         kw = build_problem(run)
         f = make_target(run)
         opts = P.base_options(run.mode, job.get("seed", 1), job.get("opts"))
+        if job.get("spec_only") and run.mode == "spec":
+            opts.pop("uncertainty_handling", None)  # specify_target_noise alone must switch uncertainty handling on
         run.user_opts = dict(opts)
         if opts.get("output_fcn") == "STOP_INIT":
             opts["output_fcn"] = lambda x, state: True
